@@ -1274,4 +1274,7 @@ impl Ctx for CircCtx {
         out.extend(next_layer_circ(b, &self.data.lookups)?);
         Ok(out)
     }
+    fn foreign_key_probe(&self, b: &Value) -> Result<Vec<(String, CircV)>, String> {
+        next_layer_circ_foreign_key(b, &self.data.lookups)
+    }
 }
